@@ -496,6 +496,16 @@ def _build_cf2d(w):
         nz = negzero if w.get("negzero") else (lambda a: a)
         data_vars[lat_attrs["bounds"]] = xarray.DataArray(nz(q2f(g["yb"])), dims=dims + ["bnds"])
         data_vars[lon_attrs["bounds"]] = xarray.DataArray(nz(q2f(g["xb"])), dims=dims + ["bnds"])
+    if w.get("decoy_bounds"):
+        # a bounds variable of the right shape on the wrong dimensions (square grids): element [i][j] holds the corners of
+        # cell (j, i), i.e. the true bounds transposed - see geoworlds round 13
+        import numpy
+        db = w["decoy_bounds"]
+        ddims = [nm["xdim"], nm["ydim"], "bnds"] if db["how"] == "swapped" else ["decoy_a", "decoy_b", "decoy_c"]
+        lat_attrs["bounds"] = nm.get("lat_bounds", "lat_bnds")
+        lon_attrs["bounds"] = nm.get("lon_bounds", "lon_bnds")
+        data_vars[lat_attrs["bounds"]] = xarray.DataArray(numpy.ascontiguousarray(numpy.transpose(q2f(db["geom"]["yb"]), (1, 0, 2))), dims=ddims)
+        data_vars[lon_attrs["bounds"]] = xarray.DataArray(numpy.ascontiguousarray(numpy.transpose(q2f(db["geom"]["xb"]), (1, 0, 2))), dims=ddims)
     lat = xarray.DataArray(q2f(g["yc"]), dims=dims, attrs=lat_attrs)
     lon = xarray.DataArray(q2f(g["xc"]), dims=dims, attrs=lon_attrs)
     if w.get("coords_as", "coords") == "coords":
